@@ -715,6 +715,11 @@ func (c *Ctx) RuleErr() (drop, handle *Result) {
 							if op != nil && e.nilnessOf(op) == nonNil {
 								return
 							}
+							// the return is taken on a value of another result of the same call for which the
+							// callee always hands back a nil error ("not matched, nothing to report")
+							if c.siblingResultImpliesNilErr(r, s.call) {
+								return
+							}
 							if unexamined == "" {
 								unexamined = c.P.InstrPos(r)
 							}
@@ -838,6 +843,56 @@ func condBranches(cond ssa.Value) []condBranch {
 	}
 	walk(cond, false, 0)
 	return out
+}
+
+// siblingResultImpliesNilErr: the return r is only reached over an edge that tests a bool result of
+// call (found, matched, ok), and whenever the callee - a function of the repository - returns that
+// value for that result, its error result is the constant nil.
+func (c *Ctx) siblingResultImpliesNilErr(r *ssa.Return, call *ssa.Call) bool {
+	H := staticFn(&call.Call)
+	if H == nil || !c.P.IsRepoFn(H) || len(H.Blocks) == 0 {
+		return false
+	}
+	res := H.Signature.Results()
+	errIdx := -1
+	for i := 0; i < res.Len(); i++ {
+		if isErrorType(res.At(i).Type()) {
+			errIdx = i
+		}
+	}
+	if errIdx < 0 {
+		return false
+	}
+	pred := func(cond ssa.Value, val bool) bool {
+		ex, ok := cond.(*ssa.Extract)
+		if !ok || ex.Tuple != ssa.Value(call) || ex.Index == errIdx {
+			return false
+		}
+		if bt, isB := ex.Type().Underlying().(*types.Basic); !isB || bt.Kind() != types.Bool {
+			return false
+		}
+		good, n := true, 0
+		allInstrs(H, func(in ssa.Instruction) {
+			rt, isRet := in.(*ssa.Return)
+			if !isRet || len(rt.Results) <= errIdx || len(rt.Results) <= ex.Index {
+				return
+			}
+			bv, isC := constBool(rt.Results[ex.Index])
+			if !isC {
+				good = false // the flag is computed: cannot tell which returns carry this value
+				return
+			}
+			if bv != val {
+				return
+			}
+			n++
+			if !isNilConst(rt.Results[errIdx]) {
+				good = false
+			}
+		})
+		return good && n > 0
+	}
+	return c.guardedByEdges(r, pred)
 }
 
 // RuleErrFlags checks that every failure flag (bool variable set to true in
